@@ -1,13 +1,21 @@
 #!/bin/sh
-# tools/seed_sweep.sh: every stored seed against the check of its own property (and the ones seed_meta names); prints one line per seed
+# tools/seed_sweep.sh: every stored seed against the check of its own property, in SCRATCH copies of /repo (a git worktree)
+# and /verif (rsync), so that /repo and /verif stay usable meanwhile; prints one line per seed; removes the copies at the end
+S=/tmp/sweep; rm -rf $S; mkdir -p $S
+git -C /repo worktree prune
+git -C /repo worktree add --detach $S/repo HEAD -q || exit 2
+rsync -a --exclude .git --exclude .venv --exclude .tmp --exclude replays /verif/ $S/verif/
+ln -s /verif/.venv $S/verif/.venv; mkdir -p $S/verif/.tmp $S/verif/replays
+export REPO=$S/repo VERIF=$S/verif
 cd /verif
 for d in seeded/*/; do
   id=$(basename $d); p=${id%-*}
   case $id in
-    C06-3) p="C07 C06";; C12-3) p="C07 C12";; C01-2) p="C01";; C01-3) p="C01 C07";; C08-3) p="C08";; C15-1) p="C15 C16";; C15-3) p="C15 C01";;
+    C06-3) p="C07 C06";; C12-3) p="C07 C12";; C01-3) p="C01 C07";; C15-1) p="C15 C16";; C15-3) p="C15 C01";;
   esac
-  if ! git -C /repo apply --check /verif/$d/patch.diff 2>/dev/null; then echo "$id NOAPPLY"; continue; fi
-  out=$(tools/seedtest.sh $id $p 2>&1)
-  v=$(echo "$out" | grep -c "^VIOLATION"); u=$(echo "$out" | grep -c "^UNDECIDED"); c=$(echo "$out" | grep -c "CRASH\|UNSOUND")
+  if ! git -C $REPO apply --check /verif/$d/patch.diff 2>/dev/null; then echo "$id NOAPPLY"; continue; fi
+  out=$(/verif/tools/seedtest.sh $id $p 2>&1)
+  v=$(echo "$out" | grep -c "^VIOLATION"); u=$(echo "$out" | grep -c "^UNDECIDED"); c=$(echo "$out" | grep -c "CRASH\\|UNSOUND")
   echo "$id vs [$p]: violations=$v undecided=$u crash_or_unsound=$c"
 done
+git -C /repo worktree remove --force $S/repo; rm -rf $S
